@@ -98,24 +98,32 @@ NameTerm(tab, k) ==                    \* encode_name_term_index
 ---------------------------------------------------------------------------
 (* serialize/encode.py: terms *)
 
-EncIri(tb, p, n) ==                    \* TermEncoder.encode_iri_indices
+NoClaims == [P |-> {}, N |-> {}, D |-> {}]
+
+EncIri(tb, p, n) ==                    \* TermEncoder.encode_iri_indices (with TermEncoder._claim first)
   LET name == IF MaxP > 0 THEN n ELSE p \o n
+      cP   == IF MaxP > 0 THEN tb.C.P \cup {p} ELSE tb.C.P
+      cN   == tb.C.N \cup {name}
       pe   == IF MaxP > 0 THEN EntryStep(tb.P, MaxP, p) ELSE [tab |-> tb.P, id |-> None]
       ne   == EntryStep(tb.N, MaxN, name)
       r1   == IF pe.id # None THEN <<[r |-> "pfx", id |-> pe.id, v |-> p]>> ELSE <<>>
       r2   == IF ne.id # None THEN <<[r |-> "name", id |-> ne.id, v |-> name]>> ELSE <<>>
       pt   == PrefixTerm(pe.tab, MaxP, p)
       nt   == NameTerm(ne.tab, name)
-  IN [tb |-> [N |-> nt.tab, P |-> pt.tab, D |-> tb.D], rows |-> r1 \o r2, rej |-> "",
-      w |-> [t |-> "iri", p |-> pt.id, n |-> nt.id]]
+  IN IF (MaxP > 0 /\ Cardinality(cP) > MaxP) \/ Cardinality(cN) > MaxN
+     THEN [tb |-> tb, rows |-> <<>>, rej |-> "table-too-small", w |-> EmptyFn]
+     ELSE [tb |-> [N |-> nt.tab, P |-> pt.tab, D |-> tb.D, C |-> [tb.C EXCEPT !.P = cP, !.N = cN]],
+           rows |-> r1 \o r2, rej |-> "", w |-> [t |-> "iri", p |-> pt.id, n |-> nt.id]]
 
 EncLit(tb, lex, lang, dt) ==           \* TermEncoder.encode_literal
   IF dt # "" /\ dt # XsdString
   THEN IF MaxD = 0
        THEN [tb |-> tb, rows |-> <<>>, rej |-> "datatype-table-disabled", w |-> EmptyFn]
+       ELSE IF Cardinality(tb.C.D \cup {dt}) > MaxD
+       THEN [tb |-> tb, rows |-> <<>>, rej |-> "table-too-small", w |-> EmptyFn]
        ELSE LET de == EntryStep(tb.D, MaxD, dt)
                 dt2 == TermIdx(de.tab, dt)
-            IN [tb |-> [tb EXCEPT !.D = dt2.tab],
+            IN [tb |-> [tb EXCEPT !.D = dt2.tab, !.C.D = @ \cup {dt}],
                 rows |-> IF de.id # None THEN <<[r |-> "dt", id |-> de.id, v |-> dt]>> ELSE <<>>,
                 rej |-> "", w |-> [t |-> "lit", lex |-> lex, dt |-> dt2.ix]]
   ELSE IF lang # ""
@@ -181,7 +189,7 @@ OptRow == [r |-> "opt", name |-> "", pt |-> PType, gen |-> TRUE, star |-> TRUE,
            mn |-> MaxN, mp |-> MaxP, md |-> MaxD, lt |-> 0, ver |-> IF NsDecl THEN 2 ELSE 1]
 
 Init ==
-  /\ tabs = [N |-> EmptyTab, P |-> EmptyTab, D |-> EmptyTab]
+  /\ tabs = [N |-> EmptyTab, P |-> EmptyTab, D |-> EmptyTab, C |-> NoClaims]
   /\ rep = <<NoTerm, NoTerm, NoTerm, NoTerm>>
   /\ pc = "new"
   /\ cur = <<>> /\ rows = <<>>
@@ -205,10 +213,11 @@ Enroll ==
 Namespace(ns) ==       \* Stream.namespace_declaration: rows go straight to the flow, no bounds check
   /\ pc = "idle" /\ NsDecl /\ ~gopen
   /\ (HistLen = 0 \/ Len(hist) < HistLen)
-  /\ LET e  == EncIri(tabs, ns[2], ns[3])
+  /\ LET e  == EncIri([tabs EXCEPT !.C = NoClaims], ns[2], ns[3])          \* start_row
          rw == e.rows \o <<[r |-> "ns", name |-> ns[1], iri |-> e.w]>>
          r2 == RdRun(rd, rw, 1)
-     IN /\ tabs' = e.tb
+     IN /\ e.rej = ""
+        /\ tabs' = [e.tb EXCEPT !.C = NoClaims]
         /\ rd' = Settle(r2)
         /\ bad' = IF bad # "" THEN bad
                   ELSE IF r2.err # "" THEN "Valid:" \o r2.err
@@ -225,7 +234,8 @@ Begin ==
   /\ (PType = PT_GRAPHS => gopen)
   /\ (HistLen = 0 \/ Len(hist) < HistLen)
   /\ pc' = "slot" /\ cur' = <<>> /\ rows' = <<>>
-  /\ UNCHANGED <<tabs, rep, gcur, buf, rd, bad, hist>>
+  /\ tabs' = [tabs EXCEPT !.C = NoClaims]                                  \* TermEncoder.start_row
+  /\ UNCHANGED <<rep, gcur, buf, rd, bad, hist>>
 
 SlotStep(term) ==      \* body of encode_spo / encode_quad for one slot
   /\ pc = "slot"
@@ -250,7 +260,7 @@ SlotReject(term) ==    \* the encoder raises in this slot: rows so far are LOST,
      /\ rep[i] # term
      /\ LET e == EncTerm(tabs, term) IN
         /\ e.rej # ""
-        /\ tabs' = e.tb
+        /\ tabs' = [e.tb EXCEPT !.C = NoClaims]
   /\ pc' = "idle" /\ cur' = <<>> /\ rows' = <<>>
   /\ hist' = IF HistLen > 0 THEN Append(hist, [op |-> "reject", st |-> Append(cur, term), rows |-> <<>>]) ELSE hist
   /\ UNCHANGED <<rep, gcur, buf, rd, bad>>
@@ -284,18 +294,19 @@ Commit ==
         /\ buf' = Flush(buf + Len(rw))
         /\ hist' = IF HistLen > 0 THEN Append(hist, [op |-> "stmt", st |-> cur, rows |-> rw]) ELSE hist
   /\ pc' = "idle" /\ cur' = <<>> /\ rows' = <<>>
-  /\ UNCHANGED <<tabs, rep, gcur>>
+  /\ tabs' = [tabs EXCEPT !.C = NoClaims]          \* (the code clears at the next start_row; same observable behaviour)
+  /\ UNCHANGED <<rep, gcur>>
 
 GraphBegin(g) ==       \* GraphStream.graph(): encode_graph + graph_start row, extended without bounds check
   /\ pc = "idle" /\ PType = PT_GRAPHS /\ ~gopen
   /\ (HistLen = 0 \/ Len(hist) < HistLen)
   /\ g \in PoolG
   /\ (CheckFits => Fits(<<g>>))
-  /\ LET e  == EncTerm(tabs, g)
+  /\ LET e  == EncTerm([tabs EXCEPT !.C = NoClaims], g)                    \* start_row
          rw == e.rows \o <<[r |-> "gs", g |-> e.w]>>
          r2 == RdRun(rd, rw, 1)
      IN /\ e.rej = ""
-        /\ tabs' = e.tb
+        /\ tabs' = [e.tb EXCEPT !.C = NoClaims]
         /\ rd' = Settle(r2)
         /\ bad' = IF bad # "" THEN bad
                   ELSE IF r2.err # "" THEN "Valid:" \o r2.err
